@@ -151,6 +151,7 @@ class SigmaRuleBase:
                         "Sigma rule identifier must be an UUID", source=source
                     )
                 )
+                rule_id = None  # don't keep the invalid value on the rule object
 
         # Rule name
         rule_name = rule.get("name")
@@ -161,6 +162,7 @@ class SigmaRuleBase:
                         "Sigma rule name must be a string", source=source
                     )
                 )
+                rule_name = None  # don't keep the invalid value on the rule object
             else:
                 if rule_name == "":
                     errors.append(
